@@ -161,9 +161,9 @@ def sp_method(ip, st, pos, kws):
 
 def sp_callable_m(ip, st, pos, kws):
     """callable_m(el, name): el has an attribute <name> and it is callable"""
-    ip.reg.need_val()
-    f = ip.reg.ufun("callable_attr", ["Obj", "Key"], "Bool")
-    return Bool(T("(%s %s %s)" % (f, obj_term(pos[0]).s, _key(ip, pos[1]).s), "Bool"))
+    from .builtins_ import obj_preds
+    obj_preds(ip)
+    return Bool(T("(callable_attr %s %s)" % (obj_term(pos[0]).s, _key(ip, pos[1]).s), "Bool"))
 
 
 def sp_has_attr(ip, st, pos, kws):
